@@ -194,4 +194,64 @@ Proof.
 Qed.
 Lemma ho_getBlockHeader l : hint_ok (do_getBlockHeader l).
 Proof. unfold do_getBlockHeader. destruct (_ <=? _); [apply ho_blockHeader|apply ho_storeBlockHeader; reflexivity]. Qed.
+
+Lemma ho_storeFrameHeader l : d_stage (l_s l) = StoreFrameHeader -> hint_ok (do_storeFrameHeader l).
+Proof.
+  intros St. unfold hint_ok, do_storeFrameHeader. cbv zeta. destruct (_ <? _).
+  - cbn [snd fst]. intros h H. apply Stop_inj in H. right. right. unfold stop_hint. ss. rewrite St. lia.
+  - destruct (decodeHeader _ _ _) as [s' r]. destruct (r <? 0); cbn [snd]; intros h H; discriminate.
+Qed.
+Lemma ho_getFrameHeader l : hint_ok (do_getFrameHeader l).
+Proof.
+  unfold do_getFrameHeader. cbv zeta. destruct (_ <=? _).
+  - destruct (decodeHeader _ _ _) as [s' r]. destruct (r <? 0); cbn [snd]; intros h H; discriminate.
+  - destruct (_ =? 0); [intros h H; discriminate|]. apply ho_storeFrameHeader. reflexivity.
+Qed.
+Lemma ho_sframeSize l sel : hint_ok (do_sframeSize l sel).
+Proof. unfold hint_ok, do_sframeSize. cbv zeta. cbn [snd]. intros h H; discriminate. Qed.
+Lemma ho_storeSFrameSize l : d_stage (l_s l) = StoreSFrameSize -> hint_ok (do_storeSFrameSize l).
+Proof.
+  intros St. unfold do_storeSFrameSize. cbv zeta. destruct (_ <? _); [|apply ho_sframeSize].
+  intros h H. right. left. ss. rewrite St. reflexivity.
+Qed.
+Lemma ho_getSFrameSize l : hint_ok (do_getSFrameSize l).
+Proof. unfold do_getSFrameSize. destruct (_ <=? _); [apply ho_sframeSize|apply ho_storeSFrameSize; reflexivity]. Qed.
+Lemma ho_skipSkippable l : d_stage (l_s l) = SkipSkippable -> hint_ok (do_skipSkippable l).
+Proof.
+  intros St. unfold hint_ok, do_skipSkippable. cbv zeta. destruct (negb _); cbn [snd fst]; intros h H.
+  - right. left. ss. rewrite St. reflexivity.
+  - apply Stop_inj in H. auto.
+Qed.
+
+Lemma ho_iter o l : hint_ok (iter bdec o l).
+Proof.
+  unfold iter. destruct (d_stage (l_s l)) eqn:St.
+  - apply ho_getFrameHeader.
+  - apply ho_storeFrameHeader; exact St.
+  - apply ho_getBlockHeader.
+  - apply ho_getBlockHeader.
+  - apply ho_storeBlockHeader; exact St.
+  - apply ho_copyDirect; exact St.
+  - apply ho_getBlockChecksum; exact St.
+  - apply ho_getCBlock.
+  - apply ho_storeCBlock; exact St.
+  - apply ho_flushOut; exact St.
+  - apply ho_getSuffix.
+  - apply ho_storeSuffix; exact St.
+  - apply ho_getSFrameSize.
+  - apply ho_storeSFrameSize; exact St.
+  - apply ho_skipSkippable; exact St.
+Qed.
+
+Lemma run_hint : forall fuel o l l' h,
+  run bdec fuel o l = (l', FStop h) -> h = 0 \/ in_skip (d_stage (l_s l')) = true \/ h = stop_hint (l_s l').
+Proof.
+  induction fuel as [|f IH]; intros o l l' h H; [discriminate|].
+  cbn [run] in H. pose proof (ho_iter o l) as HO. unfold hint_ok in HO.
+  destruct (iter bdec o l) as [l1 oc]. cbn [fst snd] in HO.
+  destruct oc as [|h1|v].
+  - eapply IH. exact H.
+  - inversion H; subst. apply HO. reflexivity.
+  - discriminate.
+Qed.
 End Ret.
